@@ -125,39 +125,46 @@ theorem step_active {s s' : State} {e : Event} (hs : step s e = .ok s') (a : Tid
     · right; rw [← hp.1]; assumption
     · left; rw [active_childReturnPc]; exact hp))
 
-/-- A flag is set by a thread that thereby has an activation past the store on the note. -/
+/-- A flag is set by a thread that thereby has an activation past the store on the note — or by
+    `nsync_note_new` on the note it is creating (parent already notified, note.c/7). -/
 theorem step_flag_active {s s' : State} {e : Event} (hs : step s e = .ok s') (n : NoteId)
     (hn : (s'.notes n).notified = true) :
-    (s.notes n).notified = true ∨ ∃ a, e.actor = some a ∧ Active (s'.pc a) n := by
+    (s.notes n).notified = true ∨ (∃ a, e.actor = some a ∧ Active (s'.pc a) n) ∨
+    (∃ a p dl, e.actor = some a ∧ s.pc a = .newP .st n p dl) := by
   cases e
   all_goals step_cases hs
   all_goals (try (left; exact hn))
   all_goals (try (left; simpa using hn))
   all_goals (repeat' split at hn)
   all_goals (try (left; simpa using hn))
-  · simp only [childWakeNext_f_notified, setNotified_f_notified] at hn
-    split at hn
-    · next h =>
-      right
-      have hk := (by assumption : _ = Site.childSt ∧ _ ∧ _ ∧ _).2.2.1
-      refine ⟨_, rfl, ?_⟩
-      simp only [childWakeNext_pc, upd_same]
-      rw [active_childWakeNextPc]
-      left; rw [← hk, h]
-    · left; exact hn
-  · simp only [setPc_notes, allocNote_f] at hn
-    split at hn
-    · simp [NoteRec.blank] at hn
-    · left; exact hn
+  all_goals (first
+    | (simp only [childWakeNext_f_notified, setNotified_f_notified] at hn
+       split at hn
+       · next h =>
+         right; left
+         have hk := (by assumption : _ = Site.childSt ∧ _ ∧ _ ∧ _).2.2.1
+         refine ⟨_, rfl, ?_⟩
+         simp only [childWakeNext_pc, upd_same]
+         rw [active_childWakeNextPc]
+         left; rw [← hk, h]
+       · left; exact hn)
+    | (simp only [setPc_notes, markBorn_notes, setNotified_f_notified] at hn
+       split at hn
+       · next h => subst h; right; right; exact ⟨_, _, _, rfl, by assumption⟩
+       · left; exact hn)
+    | (simp only [setPc_notes, allocNote_f] at hn
+       split at hn
+       · simp [NoteRec.blank] at hn
+       · left; exact hn))
 
 /-- The delivery invariant. -/
 def InvJ (s : State) : Prop :=
   ∀ p, (s.notes p).notified = true → (s.notes p).children ≠ [] → ∃ t, Active (s.pc t) p
 
-theorem step_invJ {s s' : State} {e : Event} (hJ : InvJ s) (hs : step s e = .ok s')
-    (hno : ¬ AdoptsUnderNotified s e) : InvJ s' := by
+theorem step_invJ {s s' : State} {e : Event} (hr : Reachable s) (hJ : InvJ s)
+    (hs : step s e = .ok s') (hno : ¬ AdoptsUnderNotified s e) : InvJ s' := by
   intro p hn hch
-  rcases step_flag_active hs p hn with hn0 | ⟨a, _, hact⟩
+  rcases step_flag_active hs p hn with hn0 | ⟨a, _, hact⟩ | ⟨a, q, dl, ha, hpc⟩
   · -- the flag was already set
     by_cases hch0 : (s.notes p).children = []
     · -- the list was empty: who added a child?
@@ -176,11 +183,22 @@ theorem step_invJ {s s' : State} {e : Event} (hJ : InvJ s) (hs : step s e = .ok 
         · exact absurd h hch0
       · exact ⟨t, by rw [step_pc_other hs t ha]; exact ht⟩
   · exact ⟨a, hact⟩
+  · -- the note is still being created: it has no children, and this step adds none
+    exfalso
+    have hch0 : (s.notes p).children = [] :=
+      hr.creating_no_children (t := a) (by rw [hpc]; simp)
+    obtain ⟨c, hc⟩ := List.exists_mem_of_ne_nil _ hch
+    rcases step_children' hs p c hc with h | ⟨a', dl', ha', hpc', _⟩ | ⟨a', n, nx, he, hpc', _⟩
+    · rw [hch0] at h; cases h
+    · rw [ha] at ha'; cases ha'; rw [hpc] at hpc'; cases hpc'
+    · subst he
+      simp only [Event.actor, Option.some.injEq] at ha
+      subst ha; rw [hpc] at hpc'; cases hpc'
 
 theorem ReachableH.invJ {s : State} (h : ReachableH s) : InvJ s := by
   induction h with
   | init => intro p hn; simp [Note.init, NoteRec.blank] at hn
-  | step _ hs hno ih => exact step_invJ ih hs hno
+  | step hprev hs hno ih => exact step_invJ hprev.reachable ih hs hno
 
 theorem Reachable.invT {s : State} (h : Reachable s) : InvT s := by
   refine Reachable.induction (P := InvT) InvT.init ?_ s h
